@@ -130,6 +130,44 @@ func c15() {
 	for _, errno := range []string{"ENOMEM", "EFAULT", "ESRCH", "EBUSY", "EPERM", "EAGAIN", "EINTR", "E2BIG"} {
 		faults = append(faults, fault{kind: "kernel-refuses-seccomp-" + errno, policy: str(validYAML), pre: []string{"strace", "-f", "-o", "/dev/null", "-e", "trace=seccomp", "-e", "inject=seccomp:error=" + errno}, args: std()})
 	}
+	// near-miss action names (one byte of a documented name changed; never a mere letter-case variant): unknown, so refused
+	yq := func(s string) string {
+		out := "\""
+		for _, c := range []byte(s) {
+			if c < 0x20 || c >= 0x7f || c == '"' || c == '\\' {
+				out += fmt.Sprintf("\\x%02x", c)
+			} else {
+				out += string(c)
+			}
+		}
+		return out + "\""
+	}
+	var nearNames []string
+	for _, nm := range []string{"allow", "errno", "kill_process", "kill_thread", "log", "trace", "trap"} {
+		ms := byteMutants(nm)
+		nearNames = append(nearNames, strings.Replace(nm, "_", "\x7f", 1), strings.ToUpper(nm)+"\x00")
+		for k := 0; k < run.N(2, 30); k++ {
+			nearNames = append(nearNames, ms[r0.Intn(len(ms))])
+		}
+	}
+	nNear := 0
+	for _, nm := range nearNames {
+		isDoc := false
+		for _, d := range []string{"allow", "errno", "kill_process", "kill_thread", "log", "trace", "trap"} {
+			if strings.EqualFold(d, nm) {
+				isDoc = true
+			}
+		}
+		if isDoc {
+			continue
+		}
+		nNear++
+		if nNear%2 == 0 {
+			faults = append(faults, fault{kind: "near-miss-default-action", policy: str(strings.Replace(validYAML, "default_action: allow", "default_action: "+yq(nm), 1)), args: std()})
+		} else {
+			faults = append(faults, fault{kind: "near-miss-group-action", policy: str(strings.Replace(validYAML, "action: errno", "action: "+yq(nm), 1)), args: std()})
+		}
+	}
 	// the same defects far into a large file: comment lines are legal YAML, so a
 	// policy file can have any size; what follows the padding must still count
 	pad := func(n int) string {
